@@ -33,6 +33,14 @@ let xl (f : string) (a : string list) : string =
   | "pextGeneric", [x; m] -> opt (xl_mathext_pextGeneric (z x) (z m))
   | "maxFragmentSizeInternal", [mtu; t] -> zs (xl_protocol_maxFragmentSizeInternal (z mtu) (z t))
   | "maxPaddingSize", [mtu; t; fs; ex] -> zs (xl_protocol_maxPaddingSize (z mtu) (z t) (z fs) (z ex))
+  | "isSessionProtocol", [p] -> bool_s (xl_protocol_isSessionProtocol (z p))
+  | "isDataProtocol", [p] -> bool_s (xl_protocol_isDataProtocol (z p))
+  | "isAckProtocol", [p] -> bool_s (xl_protocol_isAckProtocol (z p))
+  | "isDataAckProtocol", [p] -> bool_s (xl_protocol_isDataAckProtocol (z p))
+  | "isLowEntropyProtocol", [p] -> bool_s (xl_protocol_isLowEntropyProtocol (z p))
+  | "isValidLowEntropyRotation", [r] -> bool_s (xl_protocol_isValidLowEntropyRotation (z r))
+  | "lowBits", [n] -> opt (xl_protocol_lowBits (z n))
+  | "rotateLowEntropyMask", [m; r; i] -> zs (xl_protocol_rotateLowEntropyMask (z m) (z r) (z i))
   | _ -> "?"
 
 let zmin a b = if zlt b a then b else a
@@ -50,6 +58,16 @@ let model (f : string) (a : string list) : string =
   | "maxFragmentSizeInternal", [mtu; t] -> if small mtu then zs (m_max_fragment_internal (z mtu) (z t)) else "-"
   | "maxPaddingSize", [mtu; t; fs; ex] ->
     if small mtu && small fs && small ex then zs (m_max_padding (z mtu) (z t) (z fs) (z ex)) else "-"
+  | "isSessionProtocol", [p] -> if below p p64 then bool_s (m_wire_is_session (nz p)) else "-"
+  | "isDataProtocol", [p] -> if below p p64 then bool_s (m_wire_is_data (nz p)) else "-"
+  | "isAckProtocol", [p] -> if below p p64 then bool_s (m_wire_is_ack (nz p)) else "-"
+  | "isDataAckProtocol", [p] -> if below p p64 then bool_s (m_wire_is_data_ack (nz p)) else "-"
+  | "isLowEntropyProtocol", [p] ->
+    if below p p64 && m_wire_is_low_entropy (nz p) <> m_is_le_proto (z p) then "models-disagree" else bool_s (m_is_le_proto (z p))
+  | "isValidLowEntropyRotation", [r] -> bool_s (m_valid_rotation (z r))
+  | "lowBits", [n] -> if zlt (z n) Z0 then "-" else ns (m_lowbits (nz n))
+  | "rotateLowEntropyMask", [m; r; i] ->
+    if below m p64 && below i p63 then ns (m_rotate_mask (nz m) (z r) (nz i)) else "-"
   | _ -> "?"
 
 let () =
